@@ -46,6 +46,23 @@ func c04Pairs() []c04Pair {
 	fl4 := [][]byte{{0, 0, 0, 0}, {1, 2, 3, 4}, {1, 2, 3, 5}, {0xff, 0xff, 0xff, 0xff}, {1, 2, 0, 0}}
 	fl16 := [][]byte{make([]byte, 16), bytes.Repeat([]byte{0xab}, 16), append(bytes.Repeat([]byte{0xab}, 15), 1), bytes.Repeat([]byte{0xff}, 16)}
 	bools := [][]byte{{0}, {1}}
+	pre := bytes.Repeat([]byte("prefix/"), 10) // 70 bytes
+	baLong := [][]byte{
+		append(append([]byte{}, pre...), 'a'),
+		append(append([]byte{}, pre...), []byte("b-and-a-suffix-of-some-length")...),
+		append(append([]byte{}, pre[:64]...), 'z'),
+		append(append([]byte{}, pre[:65]...), bytes.Repeat([]byte{'s'}, 70)...),
+		append(append(append([]byte{}, pre...), pre...), 'c'),
+		bytes.Repeat([]byte{'q'}, 100),
+	}
+	mk96 := func(shared int, tail byte) []byte {
+		b := bytes.Repeat([]byte{'k'}, 96)
+		for i := shared; i < 96; i++ {
+			b[i] = tail
+		}
+		return b
+	}
+	fl96 := [][]byte{mk96(96, 0), mk96(95, 'a'), mk96(65, 'b'), mk96(64, 'c'), mk96(33, 'd'), mk96(0, 'e')}
 	P := func() encoding.Encoding { return &parquet.Plain }
 	D := func() encoding.Encoding { return &parquet.DeltaBinaryPacked }
 	DL := func() encoding.Encoding { return &parquet.DeltaLengthByteArray }
@@ -68,6 +85,12 @@ func c04Pairs() []c04Pair {
 		{name: "DELTA_BYTE_ARRAY/BYTE_ARRAY", enc: DB, encID: 7, typ: 6, alphabet: ba},
 		{name: "DELTA_BYTE_ARRAY/FLBA4", enc: DB, encID: 7, typ: 7, size: 4, alphabet: fl4},
 		{name: "DELTA_BYTE_ARRAY/FLBA16", enc: DB, encID: 7, typ: 7, size: 16, alphabet: fl16},
+		// long values: shared prefixes and suffixes on both sides of the 16/32/64-byte
+		// blocks that vectorised copy loops work in
+		{name: "PLAIN/BYTE_ARRAY(long)", enc: P, encID: 0, typ: 6, alphabet: baLong},
+		{name: "DELTA_LENGTH_BYTE_ARRAY/BYTE_ARRAY(long)", enc: DL, encID: 6, typ: 6, alphabet: baLong},
+		{name: "DELTA_BYTE_ARRAY/BYTE_ARRAY(long)", enc: DB, encID: 7, typ: 6, alphabet: baLong},
+		{name: "DELTA_BYTE_ARRAY/FLBA96", enc: DB, encID: 7, typ: 7, size: 96, alphabet: fl96},
 		{name: "BYTE_STREAM_SPLIT/FLOAT", enc: BS, encID: 9, typ: 4, alphabet: f32},
 		{name: "BYTE_STREAM_SPLIT/DOUBLE", enc: BS, encID: 9, typ: 5, alphabet: f64},
 		{name: "BYTE_STREAM_SPLIT/INT32", enc: BS, encID: 9, typ: 1, alphabet: i32},
@@ -640,7 +663,7 @@ func init() {
 	Register(&engine.Prop{
 		ID:    "C04",
 		Level: "exploration",
-		Rule: "63 (encoding, type) pairs - PLAIN x 8 types, RLE booleans, hybrid RLE/bit-packed levels at widths 1..8 and int32 at widths 0..32, RLE_DICTIONARY index pages, DELTA_BINARY_PACKED int32/int64, DELTA_LENGTH_BYTE_ARRAY, DELTA_BYTE_ARRAY (byte array, flba 4/16), BYTE_STREAM_SPLIT (float, double, int32, int64, flba 4/16) - x {ALL sequences of length <=4 (6 thorough) over 5-6 boundary values; 12 structured patterns x 18 lengths around the 8/32/64/128/256/1024 block boundaries} + for the 7 value types: the sequence inserted into a dictionary of the type (empty or created with 1 / 3 / 10 existing values; for the patterns also with the second half of the sequence replaced by values new to the dictionary), every index leading back to its value - x 4 destination-buffer histories (+ reuse of a previous call's buffer) x build variants asm / no-AVX2 / purego; " +
+		Rule: "67 (encoding, type) pairs - PLAIN x 8 types, RLE booleans, hybrid RLE/bit-packed levels at widths 1..8 and int32 at widths 0..32, RLE_DICTIONARY index pages, DELTA_BINARY_PACKED int32/int64, DELTA_LENGTH_BYTE_ARRAY, DELTA_BYTE_ARRAY (byte array, flba 4/16/96), long byte arrays sharing 64-140 byte prefixes for PLAIN / DELTA_LENGTH / DELTA_BYTE_ARRAY, BYTE_STREAM_SPLIT (float, double, int32, int64, flba 4/16) - x {ALL sequences of length <=4 (6 thorough) over 5-6 boundary values; 12 structured patterns x 18 lengths around the 8/32/64/128/256/1024 block boundaries} + for the 7 value types: the sequence inserted into a dictionary of the type (empty or created with 1 / 3 / 10 existing values; for the patterns also with the second half of the sequence replaced by values new to the dictionary), every index leading back to its value - x 4 destination-buffer histories (+ reuse of a previous call's buffer) x build variants asm / no-AVX2 / purego; " +
 			"non-trivial = >=2 values, distinct by (pair, sequence)",
 		Assumptions: []string{"the independent decoder is pqref (written from Encodings.md); encoded bytes are compared across build variants case by case"},
 		Bound:       func(string) int { return 0 },
